@@ -110,6 +110,8 @@ def check_value_policy(ctx, tag, policy, pomdp, view, sl, b):
 
 
 def prop_planner(case, ctx):
+    from msdm.core.pomdp.tabularpomdp import Belief
+    from msdm.core.distributions import DictDistribution
     from msdm.algorithms.pointbasedvalueiteration import PointBasedValueIteration
     from msdm.algorithms.qmdp import QMDP
     from msdm.algorithms.valueiteration import ValueIteration
@@ -134,6 +136,10 @@ def prop_planner(case, ctx):
     for b in beliefs:
         bel, av = check_value_policy(ctx, "pbvi", res.policy, pomdp, view, sl, b)
         val = float(res.policy.value(bel))
+        # the alpha-vector policy also accepts a belief as a distribution over states
+        as_dist = DictDistribution({s: float(b[i]) for s, i in zip(pomdp.state_list, sl) if b[i] > 0})
+        ctx.check(abs(float(res.policy.value(as_dist)) - val) <= 1e-9 * scale, "C08.pbvi.value_depends_on_belief_representation",
+                  lambda: f"belief {b.tolist()}: value(Distribution) {res.policy.value(as_dist)} vs value(Belief) {val}")
         if horizon is not None:
             vmax = max(arr.vk(b, k) for k in range(0, horizon + 1))
             ctx.check(val <= vmax + TOL * scale, "C08.pbvi.value_exceeds_finite_horizon_optimum",
@@ -149,6 +155,17 @@ def prop_planner(case, ctx):
                 ctx.check(abs(got - want) <= 1e-7 * scale, f"C08.{tag}.action_value_is_belief_weighted_mdp_q",
                           lambda: f"belief {b.tolist()} action {a}: {got} vs {want}")
             qv = float(q.policy.value(bel))
+            # a Belief carries its own state order: the same belief listed in another order, or over its support
+            # only, is the same belief
+            order = list(range(len(sl)))[::-1]
+            bel_rev = Belief(tuple(pomdp.state_list[i] for i in order), tuple(float(b[sl[i]]) for i in order))
+            sup = [i for i in range(len(sl)) if b[sl[i]] > 0]
+            bel_sup = Belief(tuple(pomdp.state_list[i] for i in sup), tuple(float(b[sl[i]]) for i in sup))
+            for other, what in ((bel_rev, "reversed state order"), (bel_sup, "support only")):
+                for a in pomdp.action_list:
+                    ctx.check(abs(float(q.policy.action_value(other, a)) - float(q.policy.action_value(bel, a))) <= 1e-9 * scale,
+                              f"C08.{tag}.action_value_depends_on_belief_representation",
+                              lambda: f"belief {b.tolist()} ({what}) action {a}: {q.policy.action_value(other, a)} vs {q.policy.action_value(bel, a)}")
             lo = arr.lower(b, 4)
             ctx.check(qv >= lo - 1e-7 * scale, f"C08.{tag}.value_below_optimal", lambda: f"belief {b.tolist()}: QMDP {qv} < lower bracket {lo}")
             if rmin_nonneg:
